@@ -130,6 +130,9 @@ func (m *c20Model) apply(op string) bool {
 		}
 		delete(m.Accts, p[1])
 	case "ban":
+		if m.Bans[p[1]] == "perm" && p[2] == "temp" {
+			break // a temporary ban leaves a permanent one of the same address in force (C17): nothing changes
+		}
 		m.Bans[p[1]] = p[2]
 	}
 	return true
